@@ -28,6 +28,30 @@ CLAIMS = {
              "across worker counts (argued only) nor races inside CHOLMOD.",
         note=TRUST + "POSIX condition-variable semantics; one mutex and one condition variable shared via trial 0 (checked).",
         technique="lockset / typestate dataflow over clang CFGs of the C fitter, shared-object effect table"),
+    "C20": dict(
+        text="Decides the ownership typestate of splinetable on the instantiated bodies of every mutator: at every possibly-raising element "
+             "the object is untouched, or protected by a handler/guard that calls clear() (failed operation leaves it unchanged or empty); "
+             "owned-pointer arrays are initialised before the next raising element; populating functions are entered only with a table "
+             "known empty; clear()/move construction/move assignment cover every member with matching counts and leave the source empty; "
+             "local new/malloc results are owned, returned or released on all exits. All CFG paths of all mutators. Does not decide "
+             "behaviour over operation sequences against an abstract model, nor fancy-pointer allocators.",
+        note=TRUST + "Exceptions arise only where the effect summary says (throw, operator new, calls to raising functions); deallocate does not raise.",
+        technique="typestate / exception-safety dataflow over clang CFGs of instantiated templates; field-coverage and count-agreement checks"),
+    "C13": dict(
+        text="Decides that each hazardous use of a fit argument (table derived by reading the C fitter) is dominated by a throwing guard whose "
+             "condition equals the required relation in canonical (affine, integer) form, that per-dimension guards cover every dimension and "
+             "precede the first member store, that a failing fit cannot leave a modified unprotected table, and that the C wrapper maps "
+             "throws to non-zero. Both container instantiations. Does not decide memory safety inside CHOLMOD/GLAM for valid arguments.",
+        note=TRUST + "The hazard table (FIT_OBLIGATIONS) is the trusted specification of which relations are needed.",
+        technique="required-guard dominance check with relational normal forms over the instantiated AST/CFG"),
+    "C07": dict(
+        text="Decides that a failing read leaves an empty destructible object (no-throw window + clear() coverage on read_fits, read_fits_mem, "
+             "read_fits_core, file constructor), that every feasible normal exit of the reader is dominated by guards for nknots >= 2*order+2, "
+             "naxes == nknots-order-1, finite and non-decreasing knots over all dimensions/knots, that the reader is entered only with an "
+             "empty table, and that the C readers map failure to non-zero. Does not decide cfitsio's behaviour on corrupted bytes nor "
+             "termination/safety of evaluation beyond what C04/C05 decide for well-formed tables.",
+        note=TRUST + "cfitsio reports malformed HDUs through its status argument.",
+        technique="typestate dataflow + required-guard dominance (relational normal forms), status known-zero pruning of infeasible returns"),
 }
 
 NOT_APPLICABLE = {
@@ -38,4 +62,4 @@ NOT_APPLICABLE = {
 
 # properties whose check is designed (DESIGN.md §4) but not yet built in this tree
 PENDING = {p: "static check designed in DESIGN.md §4 but not built yet in this tree; not claimed until it runs"
-           for p in ("C02", "C03", "C04", "C05", "C06", "C07", "C10", "C11", "C13", "C14", "C15", "C16", "C19", "C20")}
+           for p in ("C02", "C03", "C04", "C05", "C06", "C10", "C11", "C14", "C15", "C16", "C19")}
